@@ -31,6 +31,7 @@ REQUIRED_COUNTERS = ['downstream_compared', 'observer_content_compared']
 OBSERVERS = ['printer', 'dump_to_path', 'dump_to_zip', 'stream', 'checkpoint', 'finalizer', 'update_stats',
              'validate', 'pair']
 DISCARDERS = ['delete_resource', 'join', 'concatenate', 'filter_rows', 'deduplicate', 'select_fields']
+MUTATORS = ['find_replace', 'set_type', 'user']     # edit rows in place downstream of the observer
 CASE_TIMEOUT = 180
 
 
@@ -38,6 +39,57 @@ def gen_cases(tier, seed):
     n = {'quick': 540, 'thorough': 14000}[tier]
     for i in range(n):
         yield {'family': OBSERVERS[i % len(OBSERVERS)], 'idx': i, 'seed': seed}
+    # edge templates: discarders whose input is degenerate (empty join source/target, everything filtered, ...)
+    j = 0
+    for rep in range({'quick': 1, 'thorough': 8}[tier]):
+        for edge in EDGES:
+            for obs in OBSERVERS[:-1]:
+                j += 1
+                yield {'family': obs, 'idx': 10 ** 6 + j, 'seed': seed, 'edge': edge}
+
+
+EDGES = ['inner_join_empty_source', 'inner_join_empty_target', 'inner_join_no_match', 'join_source_delete',
+         'delete_all_but_one', 'filter_everything', 'concat_then_delete', 'dedup_all_same', 'mutate_in_place_after']
+
+
+def edge_program(rng, edge):
+    """-> (tables, specs, p): observer goes right after the sources (p = 0) or after the first spec."""
+    F = [['id', 'integer'], ['n', 'integer'], ['s', 'string']]
+
+    def tab(name, rows):
+        return {'name': name, 'fields': [list(f) for f in F], 'rows': rows, 'kind': 'load'}
+
+    def rows(base, k, n=None):
+        return [{'id': base + i, 'n': (i % 4) if n is None else n, 's': ['a', 'hello', 'b'][i % 3]} for i in range(k)]
+    big = rng.choice([3, 30, 120])
+    j = {'op': 'join', 'source': 'src', 'target': 'tgt', 'agg': 'max', 'field': 'jx', 'ftype': 'integer',
+         'mode': 'inner', 'source_delete': True}
+    if edge == 'inner_join_empty_source':
+        return [tab('src', []), tab('tgt', rows(100, big))], [j], 0
+    if edge == 'inner_join_empty_target':
+        return [tab('src', rows(0, big)), tab('tgt', [])], [j], 0
+    if edge == 'inner_join_no_match':
+        return [tab('src', rows(0, big, n=77)), tab('tgt', rows(100, big))], [j], 0
+    if edge == 'join_source_delete':
+        return [tab('src', rows(0, big)), tab('tgt', rows(100, 5)), tab('other', rows(200, 4))], \
+            [dict(j, mode='half-outer')], 0
+    if edge == 'delete_all_but_one':
+        return [tab('a', rows(0, big)), tab('b', rows(100, 2)), tab('c', rows(200, big))], \
+            [{'op': 'delete_resource', 'res': 'a', 'sel': 'a'}, {'op': 'delete_resource', 'res': 'c', 'sel': -1}], 0
+    if edge == 'filter_everything':
+        return [tab('a', rows(0, big, n=9))], [{'op': 'filter_rows', 'res': 'a', 'sel': None, 'cond': 'keep_n_small'}], 0
+    if edge == 'concat_then_delete':
+        return [tab('a', rows(0, big)), tab('b', rows(100, 3)), tab('c', rows(200, 2))], \
+            [{'op': 'concatenate', 'members': ['a', 'b'], 'target': 'cat', 'fields': ['id', 'n', 's'],
+              'types': ['integer', 'integer', 'string']}, {'op': 'delete_resource', 'res': 'cat', 'sel': 'cat'}], 0
+    if edge == 'dedup_all_same':
+        return [tab('a', rows(0, big, n=1))], [{'op': 'set_primary_key', 'res': 'a', 'sel': 'a', 'pk': ['n']},
+                                                  {'op': 'deduplicate', 'res': 'a', 'sel': 'a'}], 1
+    # mutate_in_place_after: >20 rows and in-place editors right after the observer
+    return [tab('a', rows(0, rng.choice([25, 60, 130])))], \
+        [{'op': 'user', 'fn': 'u_bump_n', 'form': 'function'},
+         {'op': 'find_replace', 'res': 'a', 'sel': 'a', 'patterns': [['l+', 'L'], ['a', 'A']]},
+         {'op': 'user', 'fn': 'u_rows_twice_n', 'form': 'function'}], 0
 
 
 def proj(desc):
@@ -63,7 +115,7 @@ def run_case(case):
     n2 = rng.randint(1, 3)
     tables, s1, sh = dsl.gen_program(rng, length=n1, ops=pre_ops, tables=tables) if n1 else (tables, [], [])
     shape_mid = sh[-1] if sh else dsl.source_shape(tables)
-    _, s2, _ = dsl.gen_program(rng, length=n2, ops=DISCARDERS + ['add_field', 'set_primary_key'],
+    _, s2, _ = dsl.gen_program(rng, length=n2, ops=DISCARDERS + ['add_field', 'set_primary_key'] + MUTATORS,
                                tables=[{'name': r['name'], 'fields': r['fields'], 'rows': [], 'kind': 'load'}
                                        for r in shape_mid])
     # gen_program re-derives names for its "tables": keep the pk knowledge by regenerating with real shape
@@ -79,8 +131,10 @@ def run_case(case):
             ok_specs.append(s)
         except (StopIteration, ValueError, KeyError, IndexError):
             continue
-    specs = ok_specs
+    specs = [dict(sp, form='function') if sp['op'] == 'user' else sp for sp in ok_specs]
     p = rng.randint(0, len(specs))
+    if case.get('edge'):
+        tables, specs, p = edge_program(rng, case['edge'])
     prefix, suffix = specs[:p], specs[p:]
     prog = dsl.render(tables, specs)
     discards = sorted({s['op'] for s in suffix if s['op'] in DISCARDERS})
@@ -156,7 +210,19 @@ def run_case(case):
     st, env = steps(True, 'obs')
     cnt['before'] = cnt['after'] = 0
     del fin_calls[:]
-    with_obs = lab.run(st, validate=True)
+    # what printer hands to tabulate (row lists already rendered to text) is captured through a module-level shim
+    prm = boot.module('dataflows.processors.printer')
+    real_tabulate = prm.tabulate
+    printed_rows = []
+
+    def tab_shim(rows_, headers=(), **kw):
+        printed_rows.append(([list(r) for r in rows_], list(headers)))
+        return real_tabulate(rows_, headers=headers, **kw)
+    prm.tabulate = tab_shim
+    try:
+        with_obs = lab.run(st, validate=True)
+    finally:
+        prm.tabulate = real_tabulate
     if not with_obs.ok:
         c = getattr(with_obs.exc, 'cause', with_obs.exc)
         add('observer_breaks_run', 'inserting the observer makes the run fail: %s: %s'
@@ -193,6 +259,21 @@ def run_case(case):
                     if top != len(rows):
                         add('printer_rows', 'printer saw %d rows of %s, the stream has %d' % (top, name, len(rows)),
                             'printer/row_count')
+                # content: every printed row must show the values the row had AT the printer's position
+                for name, (prow, headers), rows, rd in zip(exp_names, printed_rows, exp_rows, at_p.dp['resources']):
+                    fnames = [f['name'] for f in rd['schema']['fields']]
+                    for pr in prow:
+                        if pr == ['...'] or not pr:
+                            continue
+                        i = pr[0]
+                        if not isinstance(i, int) or not (1 <= i <= len(rows)):
+                            add('printer_content', 'printer row index %r out of range for %s' % (i, name), 'printer/content')
+                            break
+                        want = [str(rows[i - 1].get(f)) for f in fnames]
+                        if [str(x) for x in pr[1:]] != want:
+                            add('printer_content', 'printer shows row %d of %s as %r, the stream at its position has %r'
+                                % (i, name, pr[1:], want), 'printer/content')
+                            break
         elif k in ('dump_to_path', 'dump_to_zip'):
             if k == 'dump_to_path':
                 w = iolab.Written(env.dump_dirs[0])
